@@ -18,17 +18,25 @@ theorem body_tally__getBucketsIdentity_unchanged : Facts.body_tally__getBucketsI
 
 theorem body_tally__newBucketPair_unchanged : Facts.body_tally__newBucketPair = ["func( htype histogramType, durations []time.Duration, values []float64, upperBoundIndex int, prev BucketPair, ) bucketPair", "var pair bucketPair", "switch htype { case durationHistogramType: pair = bucketPair{ lowerBoundDuration: prev.UpperBoundDuration(), upperBoundDuration: durations[upperBoundIndex], } case valueHistogramType: pair = bucketPair{ lowerBoundValue: prev.UpperBoundValue(), upperBoundValue: values[upperBoundIndex], } default: }", "return pair"] := rfl
 
-theorem body_tally__newBucketStorage_unchanged : Facts.body_tally__newBucketStorage = ["func( htype histogramType, buckets Buckets, ) bucketStorage", "var ( pairs = BucketPairs(buckets) storage = bucketStorage{ buckets: buckets, hbuckets: make([]histogramBucket, 0, len(pairs)), } )", "for _, pair := range pairs", "| storage.hbuckets = append(storage.hbuckets, histogramBucket{ valueUpperBound: pair.UpperBoundValue(), durationUpperBound: pair.UpperBoundDuration(), })", "return storage"] := rfl
+theorem body_tally__newBucketStorage_unchanged : Facts.body_tally__newBucketStorage = ["func( htype histogramType, buckets Buckets, ) bucketStorage", "switch b := buckets.(type) { case DurationBuckets: buckets = append(DurationBuckets(nil), b...) case ValueBuckets: buckets = append(ValueBuckets(nil), b...) }", "var ( pairs = BucketPairs(buckets) storage = bucketStorage{ buckets: buckets, hbuckets: make([]histogramBucket, 0, len(pairs)), } )", "for _, pair := range pairs", "| storage.hbuckets = append(storage.hbuckets, histogramBucket{ valueUpperBound: pair.UpperBoundValue(), durationUpperBound: pair.UpperBoundDuration(), })", "return storage"] := rfl
 
 theorem body_tally__newHistogram_unchanged : Facts.body_tally__newHistogram = ["func( htype histogramType, name string, tags map[string]string, reporter StatsReporter, storage bucketStorage, cachedHistogram CachedHistogram, ) *histogram", "h := &histogram{ htype: htype, name: name, tags: tags, reporter: reporter, specification: storage.buckets, buckets: storage.hbuckets, samples: make([]sampleCounter, len(storage.hbuckets)), }", "for i, _ := range h.samples", "| h.samples[i].counter = newCounter(nil)", "| if cachedHistogram != nil { switch htype { case durationHistogramType: h.samples[i].cachedBucket = cachedHistogram.DurationBucket( durationLowerBound(storage.hbuckets, i), storage.hbuckets[i].durationUpperBound, ) case valueHistogramType: h.samples[i].cachedBucket = cachedHistogram.ValueBucket( valueLowerBound(storage.hbuckets, i), storage.hbuckets[i].valueUpperBound, ) } }", "return h"] := rfl
 
 theorem body_tally__valueLowerBound_unchanged : Facts.body_tally__valueLowerBound = ["func(buckets []histogramBucket, i int) float64", "if i <= 0 { return -math.MaxFloat64 }", "return buckets[i-1].valueUpperBound"] := rfl
+
+theorem body_tally_DurationBuckets_AsDurations_unchanged : Facts.body_tally_DurationBuckets_AsDurations = ["func() []time.Duration", "return v"] := rfl
+
+theorem body_tally_DurationBuckets_AsValues_unchanged : Facts.body_tally_DurationBuckets_AsValues = ["func() []float64", "values := make([]float64, len(v))", "for i, _ := range values", "| values[i] = float64(v[i]) / float64(time.Second)", "return values"] := rfl
 
 theorem body_tally_DurationBuckets_Len_unchanged : Facts.body_tally_DurationBuckets_Len = ["func() int", "return len(v)"] := rfl
 
 theorem body_tally_DurationBuckets_Less_unchanged : Facts.body_tally_DurationBuckets_Less = ["func(i, j int) bool", "return v[i] < v[j]"] := rfl
 
 theorem body_tally_DurationBuckets_Swap_unchanged : Facts.body_tally_DurationBuckets_Swap = ["func(i, j int)", "v[i], v[j] = v[j], v[i]"] := rfl
+
+theorem body_tally_ValueBuckets_AsDurations_unchanged : Facts.body_tally_ValueBuckets_AsDurations = ["func() []time.Duration", "values := make([]time.Duration, len(v))", "for i, _ := range values", "| values[i] = time.Duration(v[i] * float64(time.Second))", "return values"] := rfl
+
+theorem body_tally_ValueBuckets_AsValues_unchanged : Facts.body_tally_ValueBuckets_AsValues = ["func() []float64", "return v"] := rfl
 
 theorem body_tally_ValueBuckets_Len_unchanged : Facts.body_tally_ValueBuckets_Len = ["func() int", "return len(v)"] := rfl
 
